@@ -522,8 +522,10 @@ func genExponentBytes(r *Rng, g *ref.Group) Hex {
 		return bigBytes(g.P)
 	case 4:
 		return bigBytes(new(big.Int).Sub(two2048, one))
-	case 5, 6: // small exponent: 2^x unreduced, many leading zero octets
+	case 5: // small exponent: 2^x unreduced, many leading zero octets
 		return bigBytes(big.NewInt(int64(r.Intn(g.Len*8 - 8))))
+	case 6: // exponents around and beyond the bit length of the modulus (2^x just wraps once or a few times)
+		return bigBytes(big.NewInt(int64(Pick(r, g.Len*8-1, g.Len*8, g.Len*8+1, r.Range(g.Len*8-8, 2*g.Len*8), r.Range(0, 5000)))))
 	case 7:
 		return bigBytes(two128)
 	}
